@@ -2,3 +2,4 @@ pub mod c15;
 pub mod c07;
 pub mod c16;
 pub mod c12;
+pub mod c11;
